@@ -135,8 +135,17 @@ def render_reflects_tree(structs, tree, options, path='/'):
             bound = f['rename'] if f['rename'] is not None else f['ident']
             conds.append(('%s: text field bound to the text identifier' % path, SEQ(bound, options['text_identifier'])))
             conds.append(('%s: text field is Option<String>' % path, f['type'] == {'option': True, 'vec': False, 'base': 'String'}))
-        for tag, c in kids:
-            f = st['fields'][fi]; fi += 1
+        # children: matched by their serde binding (the local element name) when that is unambiguous, so that the order among children with equal
+        # `position` (possible in hand-built trees; the order of an unstable sort is unspecified there) does not matter; field ORDER is C09's subject
+        cfields = st['fields'][fi:]
+        locals_ = [local_name(c['name']) for _, c in kids]
+        by_binding = {}
+        for f in cfields:
+            b = f['rename'] if f['rename'] is not None else f['ident']
+            by_binding.setdefault(b if isinstance(b, str) else None, []).append(f)
+        unambiguous = len(set(locals_)) == len(locals_) and all(len(by_binding.get(l, [])) == 1 for l in locals_)
+        for idx, (tag, c) in enumerate(kids):
+            f = by_binding[local_name(c['name'])][0] if unambiguous else cfields[idx]
             bound = f['rename'] if f['rename'] is not None else f['ident']
             conds.append(('%s%s: bound to the local element name' % (path, c['name']), SEQ(bound, local_name(c['name']))))
             if f['rename'] is not None: conds.append(('%s%s: rename only when it differs from the identifier' % (path, c['name']), NOT(SEQ(f['rename'], f['ident']))))
